@@ -890,6 +890,9 @@ type KeySharePrivateKeys struct {
 	Ecdhe      *ecdh.PrivateKey
 	Mlkem      *mlkem.DecapsulationKey768
 	MlkemEcdhe *ecdh.PrivateKey
+	// EcdheExtra holds the private keys of the classical key shares offered
+	// in addition to the first one (Ecdhe), indexed by group.
+	EcdheExtra map[CurveID]*ecdh.PrivateKey
 }
 
 func (ksp *KeySharePrivateKeys) ToPrivate() *keySharePrivateKeys {
@@ -901,6 +904,7 @@ func (ksp *KeySharePrivateKeys) ToPrivate() *keySharePrivateKeys {
 		ecdhe:      ksp.Ecdhe,
 		mlkem:      ksp.Mlkem,
 		mlkemEcdhe: ksp.MlkemEcdhe,
+		ecdheExtra: ksp.EcdheExtra,
 	}
 }
 
@@ -913,5 +917,6 @@ func (ksp *keySharePrivateKeys) ToPublic() *KeySharePrivateKeys {
 		Ecdhe:      ksp.ecdhe,
 		Mlkem:      ksp.mlkem,
 		MlkemEcdhe: ksp.mlkemEcdhe,
+		EcdheExtra: ksp.ecdheExtra,
 	}
 }
